@@ -9,10 +9,19 @@ Decided clause:
        unguarded extended-counter entry points are private and called only from these guarded
        functions and from XChaCha20-Poly1305 (whose construction is defined on the extended
        counter).
-NOT decided: keystream bytes, counter carries in the vector backends, offset equivalence and the
-arithmetic exactness of the guard's threshold.
+  R3.2 carry of the 64-bit block counter in the multi-block backends (E6b dependence cones on
+       chacha20_encrypt_bytes / salsa20_encrypt_bytes of every compiled backend unit): the two
+       counter words are LO = input[12] / HI = input[13] (ChaCha) and input[8] / input[9] (Salsa).
+       (a) R3.2-lane: no vector arithmetic result whose cone contains the HI word mixes it with
+       other cipher state without the LO word also being in the cone - lanes of one vector are
+       consecutive blocks, so a high word that cannot have been influenced by the low word has no
+       carry; (b) R3.2-wb: every write-back of the HI word depends (data or control) on the LO word.
+NOT decided: keystream bytes, the arithmetic of the per-lane additions, offset equivalence, the
+byte-wise counters of the portable Salsa20 reference code and the arithmetic exactness of the
+guard's threshold.
 """
 from .. import terms as T
+from ..cone import Cones, overlaps
 from ..build import AnalysisBroken
 from . import common as cm
 
@@ -117,3 +126,114 @@ def run(ctx, chk):
             chk.ob("R3.1-who", c, "caller of the unguarded %s is a guarded IETF entry point" % nm,
                    c.sname in allowed or c.unit.startswith(xunit), key="R3.1-who %s" % c.sname)
     chk.floor("R3.1-who", "call sites of the extended-counter functions", ncall, 5)
+
+    carry_rule(prog, chk)
+
+
+# (stream function, the function that installs nonce and counter, unit substring). The two counter words are read from
+# the set-up function: the stores whose value is load32_le(counter + 0) / load32_le(counter + 4) name LO / HI.
+COUNTER_BACKENDS = (
+    ("chacha20_encrypt_bytes", "chacha_ivsetup", "chacha20/ref/"),
+    ("chacha20_encrypt_bytes", "chacha_ivsetup", "chacha20_dolbeau-ssse3"),
+    ("chacha20_encrypt_bytes", "chacha_ivsetup", "chacha20_dolbeau-avx2"),
+    ("salsa20_encrypt_bytes", "salsa_ivsetup", "salsa20_xmm6int-sse2"),
+    ("salsa20_encrypt_bytes", "salsa_ivsetup", "salsa20_xmm6int-avx2"),
+)
+
+
+def counter_words(prog, setup):
+    """byte ranges (LO, HI) of the context words that salsa_ivsetup / chacha_ivsetup fill from the 8-byte counter"""
+    cn = Cones(setup, prog)
+    found = {}
+    for i, ins in enumerate(setup.insts):
+        if ins["op"] != "store":
+            continue
+        r, off = cn.addr(ins["ops"][1])
+        if r != ("a", 0) or off is None:
+            continue
+        # backward through phi / casts to calls of load32_le(counter + k)
+        seen, stack = set(), [ins["ops"][0]]
+        while stack:
+            o = stack.pop()
+            if o[0] != "v" or o[1] in seen:
+                continue
+            seen.add(o[1])
+            d = setup.insts[o[1]]
+            if d["op"] == "call" and (d.get("callee") or ["", ""])[1] == "load32_le":
+                ar, aoff = cn.addr(d["ops"][0])
+                if ar == ("a", 2) and aoff in (0, 4):
+                    found[aoff] = (off, off + ins.get("size", 4))
+            elif d["op"] == "load":
+                ar, aoff = cn.addr(d["ops"][0])
+                if ar == ("a", 2) and aoff in (0, 4) and d.get("size") == 4:
+                    found[aoff] = (off, off + ins.get("size", 4))
+            elif d["op"] == "phi":
+                stack.extend(v for v, _b in d["inc"])
+            elif d["op"] in ("bitcast", "zext", "trunc", "select"):
+                stack.extend(d.get("ops", ()))
+    if 0 not in found or 4 not in found:
+        raise AnalysisBroken("R3.2: cannot read the counter words from %s (%s)" % (setup.name, setup.unit))
+    return found[0], found[4]
+
+
+VEC_ARITH = ("add", "sub", "mul", "xor", "or", "and", "shl", "lshr", "ashr")
+
+
+def carry_rule(prog, chk):
+    nfn = nwb = nvec = 0
+    for name, setup, usub in COUNTER_BACKENDS:
+        fns = [f for f in prog.functions() if f.name == name and usub in f.unit and not f.decl]
+        if not fns:
+            if chk.relaxed or "xmm6int-sse2" in usub:
+                continue        # (the SSE2 intrinsics backend is compiled only when the xmm6 assembly is not)
+            raise AnalysisBroken("R3.2: %s not found in a unit matching %s" % (name, usub))
+        fn = fns[0]
+        nfn += 1
+        LO, HI = counter_words(prog, prog.need(setup, unit=fn.unit, rule="R3.2"))
+        chk.note("R3.2 %s (%s): counter words are bytes %s (low) and %s (high) of the context" % (name, usub, LO, HI))
+        cn = Cones(fn, prog)
+        root = ("a", 0)
+
+        def has(cone, rng):
+            return any(overlaps(a, root, rng[0], rng[1]) for a in cone)
+
+        def pure_hi(cone):
+            return has(cone, HI) and not has(cone, LO)
+
+        for i, ins in enumerate(fn.insts):
+            op = ins["op"]
+            if op == "store":
+                r, off = cn.addr(ins["ops"][1])
+                if r != root or off is None or not (off < HI[1] and HI[0] < off + ins.get("size", 0)):
+                    continue
+                if off < LO[1] and LO[0] < off + ins.get("size", 0):
+                    continue        # one store covering both words: a 64-bit counter written whole
+                nwb += 1
+                c = cn.cone(ins["ops"][0])
+                ok = has(c, LO)
+                chk.ob("R3.2-wb", fn, "the high counter word written back at %s depends on the low word (carry)" % fn.loc(i), ok,
+                       loc=fn.loc(i), key="R3.2-wb %s %s" % (name, usub))
+            elif ins["ty"].startswith("<") and (op in VEC_ARITH or (op == "call" and str((ins.get("callee") or ["", ""])[1]).startswith("llvm.x86."))):
+                ops = [o for o in ins.get("ops", ()) if o[0] in ("v", "a")]
+                cones = [cn.cone(o) for o in ops]
+                if not any(has(c, HI) for c in cones):
+                    continue
+                nvec += 1
+
+                def counter_only(c, rngs):
+                    return bool(c) and all(a[0] == "ld" and a[1] == root and a[2] is not None and
+                                           any(r[0] <= a[2] and a[3] <= r[1] for r in rngs) for a in c)
+                bad = None
+                for k, c in enumerate(cones):
+                    if counter_only(c, (HI,)):
+                        foreign = [d for m, d in enumerate(cones) if m != k and d and not counter_only(d, (LO, HI))]
+                        if foreign:
+                            bad = ops[k]
+                ok = bad is None
+                chk.ob("R3.2-lane", fn, "no vector operation mixes a value derived from the high counter word alone into the cipher state", ok,
+                       loc=fn.loc(i), detail="" if ok else "operand %s of %%%s depends on input[%d] only (never on input[%d]): its lanes are "
+                       "consecutive blocks sharing one high word, so a carry out of the low word is lost"
+                       % (bad, ins.get("name", i), HI[0] // 4, LO[0] // 4), key="R3.2-lane %s %s" % (name, usub))
+    chk.floor("R3.2-wb", "stream backends with a 64-bit block counter", nfn, 4)
+    chk.floor("R3.2-wb", "write-backs of the high counter word", nwb, 9)
+    chk.floor("R3.2-lane", "vector operations downstream of the high counter word", nvec, 100)
